@@ -176,6 +176,17 @@ CHECKS = {
             'Trusts TLC. sigma compared through the squared distance in pm^2 (1 pm^2). Known finding D13 (site types collide when '
             'a later chain starts below residue 1) is reported as KNOWN-FINDING.',
             'DESIGN.md section 5 / C18'),
+    'C14': ('model_checking',
+            'TLA+ spec PTM (groups of unexplained atoms, candidate placements as induced embeddings with anchors by name and '
+            'added atoms by element, exact covers, JudgeRun) evaluated by TLC on recorded runs of the real '
+            'CanonicalizeModifications with identify_ptms interposed',
+            'TLC recomputes the groups, decides by brute force whether each group has an exact cover, and requires: identified '
+            'placements fit and cover every unexplained atom exactly once (every anchor at least once), canonical names and '
+            'renames applied, all atoms of the touched residues labelled, unexplainable groups removed with a warning, nothing kept '
+            'silently, no label without a modification.',
+            'Trusts TLC and the interposition. Templates have >= 1 added atom; -modify pre-labelled atoms are not generated; '
+            'known finding D17 (AssertionError for two differently-anchored groups on one residue) is reported as KNOWN-FINDING.',
+            'DESIGN.md section 5 / C14'),
 }
 
 PENDING = {}
